@@ -10,7 +10,7 @@ VARIABLE l
 
 Rng(s) == { s[i] : i \in 1..Len(s) }
 IsEv(k) == l <= Len(Log) /\ Log[l].ev = k /\ l' = l + 1
-Skipped == {"cancel", "syncpool_call", "syncpool_ret", "release_ret", "dbg", "cs", "adopt"}
+Skipped == {"cancel", "syncpool_call", "syncpool_ret", "release_ret", "dbg", "cs", "adopt", "restart"}
 
 CloudOf(lst) == [e \in Enis |-> IF \E i \in 1..Len(lst) : lst[i].e = e
                                 THEN LET x == lst[CHOOSE i \in 1..Len(lst) : lst[i].e = e] IN
